@@ -1,10 +1,10 @@
 package drive
 
 import (
-	"github.com/golang/protobuf/proto" //nolint:staticcheck
-	"google.golang.org/protobuf/encoding/protojson"
 	"encoding/json"
 	"fmt"
+	"github.com/golang/protobuf/proto" //nolint:staticcheck
+	"google.golang.org/protobuf/encoding/protojson"
 	"math/big"
 	"sort"
 	"strings"
